@@ -414,11 +414,12 @@ def cross_engine_guard(families):
     out = []
     seen = set()
     for f in families:
-        m = re.match(r"bfs-limit(\d+)(-3endpoints-3tokens-1path)?$", f["name"])
+        m = re.match(r"bfs-limit(\d+)(-3endpoints-3tokens-1path|-2endpoints-1token-3paths)?$", f["name"])
         if not m or f["name"] in seen or f.get("config") != "oc":
             continue
         seen.add(f["name"])
-        r = subprocess.run([os.path.join(MC, "target/oc/xcheck"), m.group(1), "1" if m.group(2) else "0"],
+        mode = {None: "0", "-3endpoints-3tokens-1path": "1", "-2endpoints-1token-3paths": "2"}[m.group(2)]
+        r = subprocess.run([os.path.join(MC, "target/oc/xcheck"), m.group(1), mode],
                            stdout=subprocess.PIPE, stderr=subprocess.PIPE, text=True)
         j = json.loads(r.stdout.strip().splitlines()[-1])
         j["real_code_states"] = f["states"]
